@@ -125,7 +125,10 @@ func (cs *caseSpec) filterCoq() string {
 }
 
 // runCase builds the store content, runs the two observations, and cleans up.
+var phase = map[string]time.Duration{}
+
 func (e *env) runCase(cs *caseSpec) (obs []obsNode, obsErr error, locked []string, lockedErr error, infra error) {
+	t0 := time.Now()
 	ctx, cancel := context.WithTimeout(context.Background(), 20*time.Second)
 	defer cancel()
 	var added []*types.Node
@@ -176,7 +179,12 @@ func (e *env) runCase(cs *caseSpec) (obs []obsNode, obsErr error, locked []strin
 		return &types.NodeFilter{Podname: cs.F.Pod, Includes: append([]string(nil), cs.F.Includes...),
 			Excludes: append([]string(nil), cs.F.Excludes...), Labels: cs.F.Labels, All: cs.F.All}
 	}
+	phase[e.name+"/setup"] += time.Since(t0)
+	t1 := time.Now()
 	ns, err := e.c.VerifC21FilterNodes(ctx, nf())
+	phase[e.name+"/filter"] += time.Since(t1)
+	t2 := time.Now()
+	defer func() { phase[e.name+"/locked"] += time.Since(t2) }()
 	if err != nil {
 		obsErr = err
 	} else {
@@ -365,11 +373,12 @@ func TestC21(t *testing.T) {
 			emit(e, cs)
 		}
 	}
-	n := r.N(260, 8000)
+	n := r.N(220, 8000)
 	for i := 0; i < n; i++ {
 		cs := randomCase(r)
 		emit(envs[i%len(envs)], cs)
 	}
+	t.Logf("phases: %v", phase)
 	r.Finish("corpus (witnesses of the repaired duplicate-include defect, down/bypassed/labelled nodes, empty and unknown pods) on both backends, then random stores (1-3 pods, 0-7 nodes: test/non-test, bypassed, with/without status key, labels) and filters (include lists with repeats and unknown names, excludes, labels, pod/all-pods, all flag); real Calcium.filterNodes and withNodesPodLocked over embedded etcd / miniredis; non-trivial = at least one node selected")
 
 	// ---- utils.Unique on arbitrary slices ----
